@@ -211,7 +211,7 @@ theorem judgeRun_nil_iff (r : CRecord) (m : CRun) : judgeRun r m = [] ↔ CHolds
       · intro h; have := (h.reopened ri hre).1; simp [hok'] at this
     have hok : ri.ok = true := by simpa using hok'
     unfold reopenedFails
-    simp only [hok, Bool.not_true, Bool.false_eq_true, if_false, List.append_eq_nil_iff, readFails_nil_iff, flatMap_nil_iff, ite_nil_iff']
+    simp only [hok, Bool.not_true, Bool.false_eq_true, if_false, List.append_eq_nil_iff, readFails_nil_iff, flatMap_nil_iff, ite_nil_iff_not]
     constructor
     · rintro ⟨⟨⟨h1, h2⟩, h3⟩, ⟨⟨⟨h4, h5⟩, h6⟩, h7⟩⟩
       refine ⟨hc, h1, h2, h3, ?_⟩
